@@ -11,11 +11,13 @@ Section Compress.
   Definition lmax (l : list T) : T := fold_left (nmax O) l (hd (nzero O) l).
   Definition lmin (l : list T) : T := fold_left (nmin O) l (hd (nzero O) l).
 
-  (* numpy.arange(start, stop, step): length ceil((stop-start)/step), element k = start + k*step *)
+  (* numpy.arange(start, stop, step): length ceil((stop-start)/step); numpy fills element k as
+     start + k*delta with delta = (start + step) - start *)
   Definition nceil (x : T) : T := nopp O (nfloor O (nopp O x)).
   Definition arange (start stop step : T) : list T :=
     let len := Z.to_nat (ntoZ O (nceil (ndiv O (nsub O stop start) step))) in
-    map (fun k => nadd O start (nmul O (kn k) step)) (seq 0 len).
+    let delta := nsub O (nadd O start step) start in
+    map (fun k => nadd O start (nmul O (kn k) delta)) (seq 0 len).
   (* numpy.digitize(x, bins) (increasing bins, right=False): number of bins b with b <= x *)
   Definition digitize (x : T) (bins : list T) : nat := length (filter (fun b => nleb O b x) bins).
 
